@@ -72,7 +72,7 @@ def fmtDRes : DMap.Res → String
 
 def range (n : Nat) : List Nat := List.range n
 
-def dataOps : List String := ["c.put", "c.get", "c.getx", "c.del", "c.expire", "c.getput", "c.incr", "c.putv", "c.decr", "c.lock", "c.lockw", "c.unlockx", "c.leasex", "c.atomx",
+def dataOps : List String := ["c.put", "c.get", "c.getx", "c.del", "c.expire", "c.getput", "c.incr", "c.putv", "c.decr", "c.lock", "c.lockw", "c.unlockx", "c.leasex", "c.atomx", "c.atomenv",
   "c.unlock", "c.lease", "c.destroy", "c.pipeline"]
 
 def tokBytes (n : Nat) : Bytes := ("tok" ++ toString n).toUTF8.toList
@@ -221,6 +221,24 @@ def clusterStep (s : CSt) (now : Int) (op : String) (a : List String) : Option (
     let (c1, r1) := run s.cl (arg 4) (arg 5)
     let (c2, r2) := run c1 (arg 9) (arg 10)
     some ({ s with cl := c2 }, s!"{r1} inner=blocked:{r2}")
+  | "c.atomenv" =>
+    -- <path> <i> <dmap> <key> <op1> <arg1> -- <adv_ms> <path2> <i2> <op2> <arg2>: the first operation took its timestamp
+    -- (now), then the clock advanced and the second one ran completely, then the first one: serial, second then first,
+    -- the first one writing with the older timestamp
+    let dm := (arg 2).toUTF8.toList
+    let k := unhx (arg 3)
+    let r := s.route dm k
+    let run := fun (c : Cluster) (o : String) (x : String) (t : Int) =>
+      match o with
+      | "incr" => let (c', res) := DMap.incr (s.cfgOf dm) r s.reach c dm k (int x) t
+                  (c', match res with | some n => toString n | none => "err")
+      | "decr" => let (c', res) := DMap.incr (s.cfgOf dm) r s.reach c dm k (-(int x)) t
+                  (c', match res with | some n => toString n | none => "err")
+      | _ => let (c', res, old) := DMap.getPut (s.cfgOf dm) r s.reach c dm k (unhx x) t
+             (c', match res with | .ok => (match old with | some y => hx y.val | none => "none") | e => fmtDRes e)
+    let (c1, r2) := run s.cl (arg 10) (arg 11) (now + int (arg 7) * 1000000)
+    let (c2, r1) := run c1 (arg 4) (arg 5) now
+    some ({ s with cl := c2 }, s!"{r1} inner=ran:{r2}")
   | "c.lockw" =>
     -- a waiting Lock: one attempt now, and (the key being held) the attempts after the clock advanced
     let dm := (arg 2).toUTF8.toList
